@@ -1085,8 +1085,8 @@ func (fr *Frame) callWrites(c *ssa.CallCommon, env map[ssa.Value]Val, fv map[*ss
 		}
 		// interface method: governed by the interface contract; without one, reference arguments may be written
 		for _, a := range c.Args {
-			if _, isPtr := a.Type().Underlying().(*types.Pointer); isPtr {
-				mark(a)
+			if pa := pointerArg(a); pa != nil {
+				mark(pa)
 			}
 		}
 		return
@@ -1096,8 +1096,8 @@ func (fr *Frame) callWrites(c *ssa.CallCommon, env map[ssa.Value]Val, fv map[*ss
 			return
 		}
 		for _, a := range c.Args {
-			if _, isPtr := a.Type().Underlying().(*types.Pointer); isPtr {
-				mark(a)
+			if pa := pointerArg(a); pa != nil {
+				mark(pa)
 			}
 		}
 		return
@@ -1120,8 +1120,8 @@ func (fr *Frame) callWrites(c *ssa.CallCommon, env map[ssa.Value]Val, fv map[*ss
 			fr.collectWrites(callee.Blocks, map[ssa.Value]Val{}, nil, out, all, depth+1)
 			// conservative: pointer args may be written by an inlined callee
 			for _, a := range c.Args {
-				if _, isPtr := a.Type().Underlying().(*types.Pointer); isPtr {
-					mark(a)
+				if pa := pointerArg(a); pa != nil {
+					mark(pa)
 				}
 			}
 			return
@@ -1153,8 +1153,8 @@ func (fr *Frame) callWrites(c *ssa.CallCommon, env map[ssa.Value]Val, fv map[*ss
 		markTrace()
 	}
 	for _, a := range c.Args {
-		if _, isPtr := a.Type().Underlying().(*types.Pointer); isPtr {
-			mark(a)
+		if pa := pointerArg(a); pa != nil {
+			mark(pa)
 		}
 	}
 	if mc, ok := c.Value.(*ssa.MakeClosure); ok {
@@ -1162,6 +1162,20 @@ func (fr *Frame) callWrites(c *ssa.CallCommon, env map[ssa.Value]Val, fv map[*ss
 			mark(b)
 		}
 	}
+}
+
+// pointerArg: the pointer a call argument hands to the callee - the argument itself, or the pointer boxed in an
+// interface value (f(&x) where f takes `any`, e.g. yaml.Unmarshal or a decode callback).
+func pointerArg(a ssa.Value) ssa.Value {
+	if _, isPtr := a.Type().Underlying().(*types.Pointer); isPtr {
+		return a
+	}
+	if mi, ok := a.(*ssa.MakeInterface); ok {
+		if _, isPtr := mi.X.Type().Underlying().(*types.Pointer); isPtr {
+			return mi.X
+		}
+	}
+	return nil
 }
 
 func rootIdent(e spec.Expr) string {
